@@ -236,6 +236,7 @@ func (ch *channel) SendEnd(ctx async.Context) status.Status {
 // The method blocks until a message is received, or the channel is closed.
 // The message is valid until the next call to Receive/ReceiveAsync.
 func (ch *channel) Receive(ctx async.Context) ([]byte, status.Status) {
+	var wait <-chan struct{}
 	for {
 		msg, ok, st := ch.ReceiveAsync(ctx)
 		switch {
@@ -245,11 +246,18 @@ func (ch *channel) Receive(ctx async.Context) ([]byte, status.Status) {
 			return msg, status.OK
 		}
 
+		// Arm the wait and poll again, a message may have arrived in between
+		if wait == nil {
+			wait = ch.ReceiveWait()
+			continue
+		}
+
 		select {
 		case <-ctx.Wait():
 			return nil, ctx.Status()
-		case <-ch.ReceiveWait():
+		case <-wait:
 		}
+		wait = nil
 	}
 }
 
